@@ -195,10 +195,10 @@ func Plans() map[string]*Plan {
 	{
 		p := baseProfile()
 		p.RoleW = []map[string]int{
-			{OpRead: 10, OpAdd: 3, OpReopen: 2, OpUpToDate: 1},
+			{OpRead: 10, OpAdd: 3, OpReopen: 2, OpUpToDate: 1, OpAddMulti: 2, OpClean: 2, OpBegin: 1, OpAbort: 1},
 			{OpAdd: 8, OpCompactAll: 3, OpCompactRange: 3, OpAutoCompact: 2, OpExpire: 1},
 			{OpAdd: 8, OpCompactAll: 3, OpCompactRange: 3, OpAutoCompact: 2},
-			{OpRead: 8, OpAdd: 3, OpReopen: 3},
+			{OpRead: 8, OpAdd: 3, OpReopen: 3, OpClean: 2, OpAddMulti: 1},
 		}
 		p.ForceLocalP = true
 		p.MinOps, p.MaxOps = 3, 7
